@@ -407,7 +407,8 @@ type agentLifeComp struct {
 func (c *agentLifeComp) Close() {
 	if c.a != nil {
 		done := make(chan struct{})
-		go func() { c.a.Stop(); close(done) }()
+		a := c.a
+		go func() { a.Stop(); close(done) }()
 		select {
 		case <-done:
 		case <-time.After(300 * time.Millisecond):
